@@ -91,15 +91,15 @@ def run(ctx):
         p, q = e["pre"], e["post"]
         if e["op"] == "execute":
             o = e["ret"]
-            allowed.setdefault((p["d"], p["r"], p["silent"], e["args"][0]), set()).add((o["out"], o["eval"], o["ctl"]))
+            allowed.setdefault((p["d"], p["r"], p["silent"], e["args"][0], e["args"][1]), set()).add((o["out"], o["eval"], o["ctl"]))
         else:
             a = e["args"][0]
             setedges.setdefault(p["d"], {}).setdefault((p["r"], p["silent"]), set()).add((e["op"], int(a), (q["r"], q["silent"])))
             if e["op"] == "set_silent" and e["ret"] != a:
                 raise Broken("spec: set_silent returns the new value")
-    macros = sorted({k[3] for k in allowed})
+    macros = sorted({(k[3], k[4]) for k in allowed})          # (statement, stream history)
     ds = sorted(setedges)
-    if len(macros) != 24 or len(ds) != 6:
+    if len(macros) != 2 * 28 or len(ds) != 6:
         raise Broken("matrix incomplete: %d statements, %d compile-time levels" % (len(macros), len(ds)))
     rnd = random.Random(ctx.seed)
     executed = 0
@@ -113,7 +113,7 @@ def run(ctx):
         path = os.path.join(ctx.rundir, "dbg-%d.txt" % d)
         with open(path, "w") as f:
             for c, a in script:
-                f.write("%s %s\n" % (c, a if c == "X" else int(a)))
+                f.write("%s\n" % cmd_text(c, a))
         from vlib.replay import ASAN_OPTS
         env = dict(os.environ, ASAN_OPTIONS=ASAN_OPTS, LC_ALL="C")
         try:
@@ -143,7 +143,12 @@ def run(ctx):
                 continue
             f = dict(x.split("=", 1) for x in w[2:])
             obs = (f["out"], int(f["eval"]), f["ctl"])
-            cell = (d, cur_r, cur_s, a)
+            a, hist = a
+            if (w[0] == "Y") != (hist == "after_failed_write") or w[1] != a:
+                raise Broken("dbg_probe answered %r to %r" % (line, (a, hist)))
+            if w[0] == "Y" and f.get("ferr") != "1":
+                raise Broken("the failed write on stderr could not be provoked (DEBUG=%d %s)" % (d, line))
+            cell = (d, cur_r, cur_s, a, hist)
             executed += 1
             distinct.add(cell)
             if obs != ("none", 0, "falls"):
@@ -158,14 +163,14 @@ def run(ctx):
                 ok, why = False, " (process ended with status %s, not through the fatal-error path)" % f["status"]
             if not ok:
                 exp = sorted(allowed[cell])
-                key = "%s [%s] out=%s%s eval=%s ctl=%s" % (a, cell_class(d, cur_r, cur_s, a), f["out"],
+                key = "%s%s [%s] out=%s%s eval=%s ctl=%s" % (a, "" if hist == "clean" else "/after-failed-write", cell_class(d, cur_r, cur_s, a), f["out"],
                                                            "/no-text" if (f["out"] != "none" and f["text"] != "1") else "", f["eval"], re.sub(r"\d+", "N", f["ctl"]))
-                ctx.report(key, "DEBUG=%d runtime level %d silent=%s statement %s: observed %s%s; allowed by the rule: %s" % (
-                    d, cur_r, cur_s, a, line, why, exp),
-                    {"debug": d, "level": cur_r, "silent": cur_s, "statement": a, "observed": line, "allowed": [list(x) for x in exp],
-                     "script": "L %d\nS %d\nX %s\n" % (cur_r, int(cur_s), a)})
+                ctx.report(key, "DEBUG=%d runtime level %d silent=%s statement %s (stream history: %s): observed %s%s; allowed by the rule: %s" % (
+                    d, cur_r, cur_s, a, hist, line, why, exp),
+                    {"debug": d, "level": cur_r, "silent": cur_s, "statement": a, "history": hist, "observed": line, "allowed": [list(x) for x in exp],
+                     "script": "L %d\nS %d\n%s %s\n" % (cur_r, int(cur_s), "X" if hist == "clean" else "Y", a)})
         if d == ds[-1]:
-            ctx.sample({"debug": d, "first_commands": ["%s %s" % x for x in script[:3]], "first_answers": lines[:3]})
+            ctx.sample({"debug": d, "first_commands": [cmd_text(*x) for x in script[:3]], "first_answers": lines[:3]})
     missing = set(allowed) - distinct
     if missing:
         raise Broken("%d cells of the matrix were not executed, e.g. %s" % (len(missing), sorted(missing)[:3]))
@@ -181,16 +186,22 @@ def run(ctx):
     ctx.cov["exhaustive"] = True
     ctx.cov["rule"] = ("every cell (DEBUG 0..5, runtime level 0..6, silent, statement) of the matrix TLC enumerates is executed at least once in a "
                        "forked child of a probe built with that DEBUG, observed (stream class, evaluations of the argument, control) and "
-                       "compared with the outcomes the specification allows; a cell is counted non-trivial when something observable happens "
+                       "compared with the outcomes the specification allows (the diagnostic of a failed ASSERT/REQUIRE must contain the expression text verbatim); a cell is counted non-trivial when something observable happens "
                        "(output, an evaluation, a return or an exit); distinct = distinct cells")
-    ctx.sample({"cell": "DEBUG=5 R=5 loud D_MEM", "allowed": [list(x) for x in sorted(allowed[(5, 5, False, "D_MEM")])]})
-    ctx.sample({"cell": "DEBUG=4 R=1 silent ASSERT_RVAL_fail", "allowed": [list(x) for x in sorted(allowed[(4, 1, True, "ASSERT_RVAL_fail")])]})
+    ctx.sample({"cell": "DEBUG=5 R=5 loud D_MEM after a failed write on the stream", "allowed": [list(x) for x in sorted(allowed[(5, 5, False, "D_MEM", "after_failed_write")])]})
+    ctx.sample({"cell": "DEBUG=4 R=1 silent ASSERT_RVAL_fail", "allowed": [list(x) for x in sorted(allowed[(4, 1, True, "ASSERT_RVAL_fail", "clean")])]})
     ctx.assumptions += ["probe and library compiled with clang from the current tree with a shim config.h per DEBUG value",
                         "stream output is classified by its marker (FATAL: / Warning: / Error: / other = debug)"]
 
 
+def cmd_text(c, a):
+    if c == "X":
+        return "%s %s" % ("X" if a[1] == "clean" else "Y", a[0])
+    return "%s %d" % (c, int(a))
+
+
 def script_text(script):
-    return "".join("%s %s\n" % (c, a if c == "X" else int(a)) for c, a in script)
+    return "".join(cmd_text(c, a) + "\n" for c, a in script)
 
 
 def replay(ctx, path):
